@@ -20,6 +20,7 @@ typedef struct {
 	const char *(*evname)(int ev);
 	void (*on_result)(const run_res_t *r, const uint8_t *hist, int len, const void *job, size_t jn, const char *human);   /* optional: parent-side cross-history oracles */
 	long states, transitions, execs; int depth_completed; int exhaustive; long states_by_depth[16];
+	int audit; long audit_checked, audit_mismatches;   /* abstraction audit (see e2_explore) */
 } e2_spec_t;
 int e2_explore(e2_spec_t *s);
 
